@@ -68,7 +68,8 @@ type builder struct {
 }
 
 func newBuilder(c *core.Ctx) *builder {
-	b := &builder{c: c, seeds: ptree.LoadCorpus(c.Repo), corpus: map[string]bool{}, seen: map[uint64]bool{}}
+	// repository corpus + the fixed one-construct forms (short: every prefix of them is taken)
+	b := &builder{c: c, seeds: append(ptree.LoadCorpus(c.Repo), ptree.FixedForms()...), corpus: map[string]bool{}, seen: map[uint64]bool{}}
 	for _, s := range b.seeds {
 		b.corpus[s.Text] = true
 	}
